@@ -493,6 +493,41 @@ def check_from_angstr(acc: core.Acc, a: tuple, b: tuple) -> None:
                 return
 
 
+def check_single_axis(acc: core.Acc, t: float) -> None:
+    """from_pitch / from_yaw / from_roll given the raw angle (any real, never normalised by an Angle first)."""
+    for tname, cls in (('Matrix', Matrix), ('FrozenMatrix', FrozenMatrix)):
+        for fn, want in (('from_pitch', ref_matrix(t, 0.0, 0.0)), ('from_yaw', ref_matrix(0.0, t, 0.0)), ('from_roll', ref_matrix(0.0, 0.0, t))):
+            acc.evaluations += 1
+            got = rows(getattr(cls, fn)(t))
+            if mdiff(got, want) > 1e-12:
+                acc.fail('single_axis_convention', {'single_axis': t}, f'{tname}.{fn}({t!r}) = {got}; closed form {want}', fn=fn)
+                return
+
+
+def check_to_matrix(acc: core.Acc, a: tuple, b: tuple) -> None:
+    """The module function to_matrix() and Vec.localise(): the same Euler triple in every accepted spelling (None, matrices,
+    angles, 3-tuple, Vec, FrozenVec) is the same rotation."""
+    from srctools.math import to_matrix
+    acc.evaluations += 1
+    want = ref_matrix(*a)
+    forms = {'Angle': Angle(*a), 'FrozenAngle': FrozenAngle(*a), 'Matrix': Matrix.from_angle(*a), 'FrozenMatrix': FrozenMatrix.from_angle(*a),
+             'tuple': tuple(a), 'Vec': Vec(*a), 'FrozenVec': FrozenVec(*a)}
+    case = {'tm_a': list(a), 'tm_b': list(b)}
+    for fname, val in forms.items():
+        got = rows(to_matrix(val))
+        if mdiff(got, want) > 1e-12:
+            acc.fail('to_matrix_differs', case, f'to_matrix({fname}{a}) = {got}; the rotation of pitch/yaw/roll {a} is {want}', form=fname)
+            return
+        v = Vec(*b)
+        v.localise(Vec(1.0, -2.0, 3.0), val)
+        wantv = tuple(x + o for x, o in zip(vec_mat(b, want), (1.0, -2.0, 3.0)))
+        if vdiff(tuple(v), wantv) > 1e-9 * (1.0 + max(abs(c) for c in b)):
+            acc.fail('to_matrix_differs', case, f'Vec{b}.localise(origin, {fname}{a}) = {tuple(v)}; expected {wantv}', form=fname)
+            return
+    if mdiff(rows(to_matrix(None)), ((1, 0, 0), (0, 1, 0), (0, 0, 1))) > 0:
+        acc.fail('to_matrix_differs', case, 'to_matrix(None) is not the identity', form='None')
+
+
 def check_transform(acc: core.Acc, a: tuple, b: tuple) -> None:
     """The context-manager forms: Angle.transform() yields the angle's own matrix and stores the edited matrix back;
     Vec.transform() yields the identity and applies the edited matrix to the vector."""
@@ -561,6 +596,10 @@ def shard(spec) -> core.Acc:
         for (p, y, r) in spec[1]:
             guarded(acc, check_angle, {'angle': [p, y, r]}, p, y, r, True)
         acc.sample({'angle': list(spec[1][0])}, 1)
+    elif kind == 'single':
+        for t in spec[1]:
+            guarded(acc, check_single_axis, {'single_axis': t}, t)
+        acc.sample({'single_axis_angles': [spec[1][0], spec[1][-1]]}, 1)
     elif kind == 'axes':
         for axis in spec[1]:
             guarded(acc, check_axis_angle, {'axis': list(axis)}, axis)
@@ -577,6 +616,7 @@ def shard(spec) -> core.Acc:
                 guarded(acc, check_mutated_reuse, {'reuse_a': list(a), 'reuse_b': list(b)}, a, b)
                 guarded(acc, check_transform, {'ta': list(a), 'tb': list(b)}, a, b)
                 guarded(acc, check_from_angstr, {'angstr_a': list(a), 'angstr_b': list(b)}, a, b)
+                guarded(acc, check_to_matrix, {'tm_a': list(a), 'tm_b': list(b)}, a, b)
         acc.sample({'a': list(a_list[0]), 'b': list(b_list[0])}, 1)
     return acc
 
@@ -595,6 +635,8 @@ def run(ctx: core.Ctx) -> None:
     axes = [ax for ax in itertools.product(AXIS_COMPONENTS, repeat=3) if any(ax)]
     for chunk in core.chunked(axes, 12):
         shards.append(('axes', chunk))
+    singles = [15.0 * k for k in range(-60, 61)] + [-1e-12, 1e-12, -89.99999999999999, 0.1, -0.1, 1e6 + 0.5, -1e6 - 0.5]
+    shards.append(('single', singles))
     k = ctx.seed % len(shards)
     core.par_map(shard, shards[k:] + shards[:k], ctx.acc)
     ctx.coverage_extra['axes'] = len(axes)
@@ -605,7 +647,7 @@ def run(ctx: core.Ctx) -> None:
                 f'determinant, to_angle round trip (2h allowance under the 0.001 threshold), inverse vs transpose, and '
                 f'{len(VECS)} vectors x (Vec, FrozenVec, tuple) x (Angle, FrozenAngle, Matrix, FrozenMatrix) x (@, @=). Composition: '
                 f'all {len(pairs_a)}^2 ordered pairs of the {int(step)}-degree sub-lattice + {len(special)} special angles x the 4x4 '
-                f'rotation type matrix x (@, @=) with associativity on 3 vectors; for each first angle also the sequence of its 9 neighbours at 1e-7 / 3e-9 / -1e-8 degrees per component, converted one after another (results must not depend on earlier calls). Every pair also through the context managers Angle.transform() (yielded matrix = that of the angle, result stored back) and Vec.transform(). from_basis with 1/2/3 axes of every first angle scaled by 1e-5..1000; from_angstr (5 bracket styles, angle objects, 7 unparsable values with the second angle as fallback) against from_angle(Angle.from_str()). Matrix/FrozenMatrix.axis_angle for every non-zero axis with components in -2..3 (215) x 28 angles x (tuple, Vec, FrozenVec) against the Rodrigues formula: orthonormal, inverse = transpose, axis fixed, additive, Euler round trip. Reference: closed-form AngleVectors and the '
+                f'rotation type matrix x (@, @=) with associativity on 3 vectors; for each first angle also the sequence of its 9 neighbours at 1e-7 / 3e-9 / -1e-8 degrees per component, converted one after another (results must not depend on earlier calls). Every pair also through the context managers Angle.transform() (yielded matrix = that of the angle, result stored back) and Vec.transform(). from_pitch/from_yaw/from_roll for raw angles -900..900 in steps of 15 (+ tiny / huge); to_matrix() and Vec.localise() for every operand spelling of every pair; from_basis with 1/2/3 axes of every first angle scaled by 1e-5..1000; from_angstr (5 bracket styles, angle objects, 7 unparsable values with the second angle as fallback) against from_angle(Angle.from_str()). Matrix/FrozenMatrix.axis_angle for every non-zero axis with components in -2..3 (215) x 28 angles x (tuple, Vec, FrozenVec) against the Rodrigues formula: orthonormal, inverse = transpose, axis fixed, additive, Euler round trip. Reference: closed-form AngleVectors and the '
                 f'roll-pitch-yaw product, both written in the harness. Non-trivial = every angle / pair (each enumerated once).')
 
 
@@ -613,6 +655,10 @@ def replay(case: dict) -> list:
     acc = core.Acc()
     if 'reuse_a' in case:
         guarded(acc, check_mutated_reuse, case, tuple(case['reuse_a']), tuple(case['reuse_b']))
+    elif 'single_axis' in case:
+        guarded(acc, check_single_axis, case, case['single_axis'])
+    elif 'tm_a' in case:
+        guarded(acc, check_to_matrix, case, tuple(case['tm_a']), tuple(case['tm_b']))
     elif 'basis_of' in case:
         guarded(acc, check_from_basis, case, tuple(case['basis_of']))
     elif 'angstr_a' in case:
